@@ -109,8 +109,49 @@ PRIM_CLASS = {"bool": "BooleanType", "u": "UnsignedIntegerType", "i": "SignedInt
               "byte": "ByteType", "utf8": "UTF8Type"}
 
 
+class _TooExpensive(BaseException):
+    pass
+
+
+def safe_expand(bls, max_steps: int = 400000):
+    """set(bls) under a step budget (traced line events in the implementation's bit-length-set code). Returns None if
+    the implementation needs more steps than that (numerical expansion is documented as potentially combinatorial; the
+    estimate-based guards are not exact). Never part of an oracle: an un-expandable set is simply compared symbolically."""
+    import sys
+    count = [0]
+    prev = sys.gettrace()
+
+    def tracer(frame, event, arg):
+        if "_bit_length_set" not in frame.f_code.co_filename:
+            return None
+        return local
+
+    def local(frame, event, arg):
+        if event == "line":
+            count[0] += 1
+            if count[0] > max_steps:
+                raise _TooExpensive()
+        return local
+    if prev is not None:
+        return set(bls)  # another tracer is active (C16): do not interfere
+    sys.settrace(tracer)
+    try:
+        return set(bls)
+    except _TooExpensive:
+        return None
+    finally:
+        sys.settrace(None)
+
+
+def _cheap_for_sut(node: B.Node) -> bool:
+    """Enumerating a set makes the implementation under test run its own numerical self-check (residues for every divisor
+    1..64), which is combinatorial for repetitions of sub-byte elements: estimated here, never part of an oracle."""
+    from ..checks.c01 import est_cost
+    return max(est_cost(node, d) for d in (64, 63, 60, 56, 48, 32, 7)) <= 100000
+
+
 class Matcher:
-    def __init__(self, res: T.Resolver, explicit_limit: int = 20000):
+    def __init__(self, res: T.Resolver, explicit_limit: int = 3000):
         self.res = res
         self.limit = explicit_limit
         self.bad: list[str] = []
@@ -131,10 +172,10 @@ class Matcher:
                 return
         if real.fixed_length != (node.lo == node.hi):
             self.err(where, "fixed_length")
-        if node.work() <= self.limit:
+        if node.work() <= self.limit and _cheap_for_sut(node):
             exp = node.expand()
-            got2 = set(real)
-            if got2 != set(exp):
+            got2 = safe_expand(real)
+            if got2 is not None and got2 != set(exp):
                 self.err(where, "explicit set differs: extra %s missing %s" % (sorted(got2 - exp)[:5], sorted(exp - got2)[:5]))
 
     def type(self, where: str, t: list, real, docs: bool = True) -> None:
